@@ -107,8 +107,9 @@ func (e *Engine) Discharge(cfg SolverCfg) {
 	}
 	// Build query texts sequentially (term context is not thread safe).
 	type job struct {
-		ob   *Obligation
-		file string
+		ob    *Obligation
+		file  string
+		qfile string // quantifier-free weakening, tried first
 	}
 	var jobs []job
 	for i, ob := range e.Obls {
@@ -148,7 +149,15 @@ func (e *Engine) Discharge(cfg SolverCfg) {
 		if err := os.WriteFile(f, []byte(q), 0o644); err != nil {
 			panic(err)
 		}
-		jobs = append(jobs, job{ob, f})
+		j := job{ob: ob, file: f}
+		if !ob.Cover && strings.Contains(q, "(forall ") {
+			q2 := "; " + ob.Name + " (quantified hypotheses replaced by instances)\n" + c.QueryOpt(e.prepareGoalMode(ob.Hyp, ob.Goal, true), ob.ModelTerms, true)
+			if !strings.Contains(q2, "(forall ") && !strings.Contains(q2, "(exists ") {
+				j.qfile = filepath.Join(dir, fmt.Sprintf("q%04d.qf.smt2", i))
+				os.WriteFile(j.qfile, []byte(q2), 0o644)
+			}
+		}
+		jobs = append(jobs, j)
 	}
 	sem := make(chan struct{}, cfg.Parallel)
 	var wg sync.WaitGroup
@@ -158,6 +167,30 @@ func (e *Engine) Discharge(cfg SolverCfg) {
 		go func(j job) {
 			defer wg.Done()
 			defer func() { <-sem }()
+			if j.qfile != "" {
+				// stage 1: the quantifier-free weakening; unsat is a proof
+				c1 := cfg
+				if c1.Timeout > 5*time.Second {
+					c1.Timeout = 5 * time.Second
+				}
+				tmp := &Obligation{Name: j.ob.Name, ModelNames: j.ob.ModelNames}
+				raceOne(tmp, j.qfile, c1)
+				if tmp.Status == "proved" {
+					j.ob.Status, j.ob.Solver, j.ob.Seconds, j.ob.Outputs = "proved", tmp.Solver+"(qf)", tmp.Seconds, tmp.Outputs
+					return
+				}
+				j.ob.Candidate = tmp.Model
+				j.ob.CandidateValues = tmp.ModelValues
+				raceOne(j.ob, j.file, cfg)
+				j.ob.Seconds += tmp.Seconds
+				if j.ob.Status == "unknown" && tmp.Status == "failed" && len(tmp.ModelValues) > 0 {
+					// no solver decided the full query; the model of the weakening is a
+					// candidate input, which counts only if the replay confirms it
+					j.ob.Model = "candidate (model of the obligation with quantified hypotheses replaced by instances):\n" + tmp.Model
+					j.ob.ModelValues = tmp.ModelValues
+				}
+				return
+			}
 			raceOne(j.ob, j.file, cfg)
 		}(j)
 	}
